@@ -112,6 +112,10 @@ func NewMultiEndpoint(b *MultiEndpointOptions) (MultiEndpoint, error) {
 		switchingDelay:  b.SwitchingDelay,
 		current:         b.Endpoints[0],
 	}
+	// The recovery timers started by newEndpoint must not run before the
+	// initialization is complete.
+	me.Lock()
+	defer me.Unlock()
 	eMap := make(map[string]*endpoint)
 	for i, e := range b.Endpoints {
 		eMap[e] = me.newEndpoint(e, i)
